@@ -51,7 +51,7 @@ CHECKS = {
         "Known finding buffered-nack-evicted (nackWriter re-requests packets that were received but evicted from the cache).",
    technique="Lean 4 invariant proofs (bitmap, counters) + differential check incl. end-to-end readLoop over in-process WebRTC",
    ref="DESIGN.md section 5 C06"),
- "C08": dict(engine="auth",
+ "C08": dict(engine="auth+api",
    text="Lean 4 proofs over the executable model of the password login (acceptance iff valid username and the governing entry's password matches, named entry "
         "shadows wildcard, empty type / null password never matches, every refusal kind, granted list = role expansion with the record/token rules proved for the real "
         "role table, raw lists unchanged, refusals leave the member list alone, obsolete-field upgrade, username rule, makePassword/Match round trip under explicit "
